@@ -29,6 +29,8 @@ DECIDED_R7 = ('Round 7: filter expressions compiled without flags; route objects
 DECIDED = DECIDED + ' ' + DECIDED_R7
 DECIDED_R8 = ("Round 8: PATH_INFO gets its mount prefix by concatenation only and _add never removes from the tree; the parser's negated character classes built from param_delimiters agree; a pending look-back record is tried whenever there is one.")
 DECIDED = DECIDED + ' ' + DECIDED_R8
+DECIDED_R9 = ('Round 9: a rule dropped from the routes index has left the tree (premise C11.d) (h); the end of a plain wildcard may be `next((k for k in range(i, L) if route[k] == SEP), L)` (i).')
+DECIDED = DECIDED + ' ' + DECIDED_R9
 NOT_DECIDED = ('equivalence of the radix-tree search with a rule-by-rule matcher over all rule sets x paths (algorithmic '
                'equivalence over unbounded inputs); regex semantics of user filters; the rule-text parser.')
 ASSUMPTIONS = ['re.Pattern.match anchors at the start of the string it is given']
